@@ -232,7 +232,11 @@ func checkC14(w *Worker) {
 	w.Explore(fmt.Sprintf("layout-dev%d", dev), ExploreOpts{ShardDepth: 6, Budgets: map[string]int{"layout": dev, "src": 0}}, body(1, []int{2, 4}))
 	// formats without a year and with a two-digit year (headings parse to year 0 / to 19xx-20xx), and periods open at one end
 	fmts, nPeriods = []string{"01/02", "Jan 2", "06.01.02", "2006/01/02", "2.1.2006"}, 5
-	w.Explore("yearless-formats-x-open-periods", ExploreOpts{ShardDepth: 6, Budgets: map[string]int{"layout": 0, "src": 0}}, body(maxRec, []int{2, 4}))
+	ylNames := []int{2, 4}
+	if w.Tier == "thorough" {
+		ylNames = all
+	}
+	w.Explore("yearless-formats-x-open-periods", ExploreOpts{ShardDepth: 6, Budgets: map[string]int{"layout": 0, "src": 0}}, body(maxRec, ylNames))
 	w.Explore("large-log-yearless-formats-x-open-periods", ExploreOpts{ShardDepth: 2, Budgets: map[string]int{"layout": 0, "src": 0}}, body(0, []int{3}))
 	fmts, nPeriods = c14Formats, 3
 	w.Explore("format-from-flag-env-config", ExploreOpts{ShardDepth: 6, Budgets: map[string]int{"layout": 0}}, body(1, []int{2}))
